@@ -29,6 +29,10 @@ def run_property(prop, tier, replay=None, repo=None, quiet=False, write=True):
         out.append(f"KNOWN-FINDING: property={prop} rule={f.rule} {f.site} :: {f.construct} -- {f.what}")
     replay_dir = os.path.join(VERIF, "evidence", "replay")
     vio_lines = []
+    if write and not replay and os.path.isdir(replay_dir):
+        for fn_ in os.listdir(replay_dir):
+            if fn_.startswith(prop + "-"):
+                os.unlink(os.path.join(replay_dir, fn_))
     if new:
         os.makedirs(replay_dir, exist_ok=True)
     for i, f in enumerate(new):
